@@ -80,3 +80,6 @@ LEVEL_TEXT = ('Unbounded theorems: per-layer permutation, nothing crosses layers
               'with the seed reported by an unseeded run are evaluated on the implementation.')
 LEVEL_NOTE = ('Agreement of --list-tests / -j / resumed children / --layer on the order (seed forwarding) is an end-to-end '
               'matter checked by the world harness (see DESIGN C11); here the feature is driven directly. RNG is an oracle.')
+
+import modes          # noqa: E402
+EXTRA_BATCHES = [modes.Batch('always', 24, 300)]
